@@ -308,75 +308,76 @@ def _triple_first(i):
 
     for y in core:
         for z in core:
-            if len({x, y, z}) < 3:
-                continue
-            n += 1
-            shutil.rmtree(root, ignore_errors=True)
-            store = FileHashStore(common.props(root))
-            ids = (x, y, z)
-            fmts = {p_: fmt_for(p_, [o for o in ids if o != p_]) for p_ in ids}
-            model = {}
-            errs = []
+          for store_order in ("xyz", "yzx"):  # the identifier deleted first is the FIRST resp. the LAST line of the shared list
+              if len({x, y, z}) < 3:
+                  continue
+              n += 1
+              shutil.rmtree(root, ignore_errors=True)
+              store = FileHashStore(common.props(root))
+              ids = (x, y, z)
+              fmts = {p_: fmt_for(p_, [o for o in ids if o != p_]) for p_ in ids}
+              model = {}
+              errs = []
 
-            def audit(step):
-                for p_ in ids:
-                    want = model.get(p_)
-                    try:
-                        st = store.retrieve_object(p_)
-                        got = st.read()
-                        st.close()
-                    except Exception as e:  # noqa: BLE001
-                        got = None
-                    if (want[0] if want else None) != got:
-                        errs.append("after %s: an identifier that was not operated on reads other object bytes (or none / some) than before" % step)
-                        return
-                    try:
-                        m = store.retrieve_metadata(p_, fmts[p_])
-                        gm = m.read()
-                        m.close()
-                    except Exception as e:  # noqa: BLE001
-                        gm = None
-                    if (want[1] if want else None) != gm:
-                        errs.append("after %s: an identifier that was not operated on reads another document (or none / some) than before" % step)
-                        return
+              def audit(step):
+                  for p_ in ids:
+                      want = model.get(p_)
+                      try:
+                          st = store.retrieve_object(p_)
+                          got = st.read()
+                          st.close()
+                      except Exception as e:  # noqa: BLE001
+                          got = None
+                      if (want[0] if want else None) != got:
+                          errs.append("after %s: an identifier that was not operated on reads other object bytes (or none / some) than before" % step)
+                          return
+                      try:
+                          m = store.retrieve_metadata(p_, fmts[p_])
+                          gm = m.read()
+                          m.close()
+                      except Exception as e:  # noqa: BLE001
+                          gm = None
+                      if (want[1] if want else None) != gm:
+                          errs.append("after %s: an identifier that was not operated on reads another document (or none / some) than before" % step)
+                          return
 
-            try:
-                for k, p_ in enumerate(ids):
-                    store.store_object(p_, inp["A"])
-                    d = "D1" if k % 2 == 0 else "D2"
-                    store.store_metadata(p_, inp[d], fmts[p_])
-                    model[p_] = (A, docs[d])
-                    audit("store of #%d" % k)
-                store.delete_object(x)
-                model.pop(x)
-                audit("delete_object(first)")
-                store.tag_object(x, cidA)
-                model[x] = (A, None)
-                audit("re-tag of the first")
-                store.delete_metadata(y, fmts[y])
-                model[y] = (A, None)
-                audit("delete_metadata(second, format)")
-                store.store_metadata(y, inp["D1"], fmts[y])
-                model[y] = (A, D1)
-                store.delete_metadata(z)
-                model[z] = (A, None)
-                audit("delete_metadata(third)")
-                store.delete_object(y)
-                model.pop(y)
-                audit("delete_object(second)")
-                store.delete_object(z)
-                model.pop(z)
-                audit("delete_object(third)")
-                store.delete_object(x)
-                model.pop(x)
-                audit("delete_object(first) again")
-                left = [r for r, b in snapshot(root).items() if b is not None and r != "hashstore.yaml" and "/tmp" not in r]
-                if left:
-                    errs.append("files remain after all three identifiers were deleted")
-            except Exception as e:  # noqa: BLE001
-                errs.append("script raised %s" % type(e).__name__)
-            for e in sorted(set(errs)):
-                res.append(({"kind": "triple", "what": e}, {"ids": [repr(v)[:40] for v in ids], "formats": [fmts[p_] for p_ in ids]}))
+              try:
+                  for k, p_ in enumerate(ids if store_order == "xyz" else (y, z, x)):
+                      store.store_object(p_, inp["A"])
+                      d = "D1" if k % 2 == 0 else "D2"
+                      store.store_metadata(p_, inp[d], fmts[p_])
+                      model[p_] = (A, docs[d])
+                      audit("store of #%d" % k)
+                  store.delete_object(x)
+                  model.pop(x)
+                  audit("delete_object(first)")
+                  store.tag_object(x, cidA)
+                  model[x] = (A, None)
+                  audit("re-tag of the first")
+                  store.delete_metadata(y, fmts[y])
+                  model[y] = (A, None)
+                  audit("delete_metadata(second, format)")
+                  store.store_metadata(y, inp["D1"], fmts[y])
+                  model[y] = (A, D1)
+                  store.delete_metadata(z)
+                  model[z] = (A, None)
+                  audit("delete_metadata(third)")
+                  store.delete_object(y)
+                  model.pop(y)
+                  audit("delete_object(second)")
+                  store.delete_object(z)
+                  model.pop(z)
+                  audit("delete_object(third)")
+                  store.delete_object(x)
+                  model.pop(x)
+                  audit("delete_object(first) again")
+                  left = [r for r, b in snapshot(root).items() if b is not None and r != "hashstore.yaml" and "/tmp" not in r]
+                  if left:
+                      errs.append("files remain after all three identifiers were deleted")
+              except Exception as e:  # noqa: BLE001
+                  errs.append("script raised %s" % type(e).__name__)
+              for e in sorted(set(errs)):
+                  res.append(({"kind": "triple", "what": e}, {"ids": [repr(v)[:40] for v in ids], "formats": [fmts[p_] for p_ in ids]}))
     shutil.rmtree(root, ignore_errors=True)
     return n, res
 
